@@ -50,7 +50,7 @@ ReplyVector(c) ==     \* c = [w, qc, op, used, rcode]
   IN [kind |-> "reply", op |-> c.op, w |-> c.w, qc |-> c.qc, rcode |-> c.rcode,
       reqwire |-> EncMsg(req), mwire |-> IF c.used THEN EncMsg(m) ELSE <<>>, idfree |-> FALSE, exp |-> Views(adm)]
 
-ReplyCases ==
+ReplyCases(dummy) ==     \* parameterised: TLC evaluates zero-arity constants eagerly, in every mode
   LET W == { w \in 0..65535 : w % NShards = Shard } IN
      { [w |-> w, qc |-> qc, op |-> "SetReply", used |-> FALSE, rcode |-> 0] : w \in W, qc \in 0..2 }
   \cup { [w |-> w, qc |-> qc, op |-> op, used |-> u, rcode |-> rc] :
@@ -108,7 +108,7 @@ TextOf(q) == Concat([i \in 1..Len(q) |-> TSym[q[i]]])
 TextVector(t) == [kind |-> "text", text |-> t, isfqdn |-> IsFqdnSpec(t), fqdn |-> FqdnSpec(t), canon |-> CanonicalSpec(t)]
 
 Init ==
-  \/ Mode = "reply" /\ v \in ReplyCases
+  \/ Mode = "reply" /\ v \in ReplyCases(0)
   \/ Mode = "chain" /\ \E q \in UNION { [1..k -> 1..Len(Ops)] : k \in 1..3 }, u \in BOOLEAN : v = [q |-> q, used |-> u]
   \/ Mode = "pos"   /\ v \in UNION { [1..k -> {1, 41, 250}] : k \in 0..3 }
   \/ Mode = "rrset" /\ v \in UNION { [1..k -> Triples] : k \in 1..3 } /\ (Len(v) < 3 \/ v[1][2] = 1)
